@@ -238,6 +238,40 @@ pub fn normalise_flags(bits: u32) -> u32 {
     }
 }
 
+/// Sets of single code points that end up in one character class: a base and members at structured distances
+/// (neighbours, +2, page/plane-sized steps and their neighbours), so that runs, near-runs and "runs modulo a power
+/// of two" all occur; also across the surrogate gap.
+pub fn class_sets(rng: &mut Rng, quick: bool) -> Vec<Vec<String>> {
+    const BASES: &[u32] = &[0x2c, 0x5a, 0x61, 0x7e, 0xfe, 0x7fe, 0xd7fd, 0xfffd, 0x10061, 0x1f600, 0x10fffb];
+    const DELTAS: &[u32] = &[0, 1, 2, 3, 5, 0xff, 0x100, 0x101, 0x102, 0x800, 0x801, 0x802, 0xffff, 0x10000, 0x10001, 0x10002, 0x10003, 0x20001, 0x20002];
+    let mut out = vec![];
+    let mut push = |cs: Vec<u32>, out: &mut Vec<Vec<String>>| {
+        let v: Vec<String> = cs.iter().filter_map(|c| char::from_u32(*c)).map(|c| c.to_string()).collect();
+        if v.len() >= 3 {
+            out.push(v);
+        }
+    };
+    for &b in BASES {
+        for i in 0..DELTAS.len() {
+            for j in i + 1..DELTAS.len() {
+                for k in j + 1..DELTAS.len() {
+                    if quick && rng.below(6) != 0 {
+                        continue;
+                    }
+                    push(vec![b + DELTAS[i], b + DELTAS[j], b + DELTAS[k]], &mut out);
+                }
+            }
+        }
+        // longer mixed sets
+        for _ in 0..(if quick { 6 } else { 60 }) {
+            let n = 4 + rng.below(4);
+            let cs: Vec<u32> = (0..n).map(|_| b + DELTAS[rng.below(DELTAS.len())]).collect();
+            push(cs, &mut out);
+        }
+    }
+    out
+}
+
 pub fn periodic_words() -> Vec<String> {
     let mut out = vec![];
     for i in 0..=6 {
